@@ -13,6 +13,9 @@ IsEv(e) == l <= Len(Trace) /\ Ev.ev = e /\ l' = l + 1 /\ UNCHANGED rej
 Init == l = 1 /\ rej = <<>> /\ added = <<>> /\ kind = "" /\ ms = 14 /\ d = 5 /\ ist = <<>>
 Reset == IsEv("T") /\ added' = <<>> /\ kind' = Ev.kind /\ ms' = Ev.ms /\ d' = Ev.d
          /\ ist' = [i \in 1..Ev.nref |-> EmptyRef]
+\* Holds(b): TLC evaluates the guard as one boolean instead of expanding its quantifiers and implications
+\* branch by branch when Skip asks ~ENABLED Regular for a rejected event (exponential otherwise).
+Holds(b) == b = TRUE
 V(o) == <<o[1], o[2]>>
 RecOf(e) == [ref |-> e.ref, beg |-> e.beg, end |-> e.end, cb |-> V(e.cb), ce |-> V(e.ce), placed |-> e.placed, mapped |-> e.mapped]
 \* (the libraries apply the position bound to the exclusive end as well: the very last indexable base is not judged)
@@ -21,7 +24,7 @@ InRange(r) == r.beg >= -1 /\ r.end <= Pow2(ms + 3 * d) - 2
 Add == /\ IsEv("add")
        /\ LET r == RecOf(Ev)
               a2 == Append(added, r)
-          IN /\ (SortedInput(a2) /\ InRange(r)) => Ev.res = "nil"
+          IN /\ Holds((SortedInput(a2) /\ InRange(r)) => Ev.res = "nil")
              /\ Ev.res = "nil"                       \* the generator only produces admissible input
              /\ added' = a2
              /\ ist' = IF r.placed /\ kind # "csi" THEN [ist EXCEPT ![r.ref + 1] = AddRec(@, r, ms, d)] ELSE ist
@@ -29,36 +32,36 @@ Add == /\ IsEv("add")
 Res(e) == [i \in 1..Len(e.chunks) |-> <<V(e.chunks[i][1]), V(e.chunks[i][2])>>]
 SameChunkSet(a, b) == {a[i] : i \in DOMAIN a} = {b[i] : i \in DOMAIN b}
 Chunks == /\ IsEv("chunks")
-          /\ IF Ev.res = "nil"
+          /\ Holds(IF Ev.res = "nil"
              THEN /\ Complete(added, Ev.ref, Ev.beg, Ev.end, Res(Ev))
                   /\ \A i \in 1..(Len(Ev.chunks) - 1) : LeV(V(Ev.chunks[i][1]), V(Ev.chunks[i + 1][1]))     \* sorted by begin
              ELSE \* an error implies that no added record overlaps the query; a panic is never acceptable
                   /\ Ev.res # "panic" /\ SubSeq(Ev.res, 1, 4) = "err:"
-                  /\ NoneOverlap(added, Ev.ref, Ev.beg, Ev.end)
-          /\ ("same" \in DOMAIN Ev) => Ev.same                          \* same answer after write + read (C15)
-          /\ (CheckI /\ kind # "csi" /\ Ev.phase \in {"mem", "rt"} /\ Ev.ref >= 0 /\ Ev.ref < Len(ist)
+                  /\ NoneOverlap(added, Ev.ref, Ev.beg, Ev.end))
+          /\ Holds(("same" \in DOMAIN Ev) => Ev.same)                   \* same answer after write + read (C15)
+          /\ Holds((CheckI /\ kind # "csi" /\ Ev.phase \in {"mem", "rt"} /\ Ev.ref >= 0 /\ Ev.ref < Len(ist)
               /\ Len(ist[Ev.ref + 1].ivs) <= 64 /\ Ev.end - Ev.beg <= 64 * Pow2(ms)) =>         \* (small indexes only: the operator walks tiles one by one)
                 LET m == ChunksOf(ist[Ev.ref + 1], Ev.beg, Ev.end, ms, d)
-                IN IF m[1] THEN Ev.res = "nil" ELSE Ev.res # "nil"
+                IN IF m[1] THEN Ev.res = "nil" ELSE Ev.res # "nil")
           /\ UNCHANGED <<added, kind, ms, d, ist>>
 Stats == /\ IsEv("stats") /\ Ev.res = "nil"
          /\ Ev.numrefs = NumRefs(added)
-         /\ \A i \in 1..Ev.numrefs :
+         /\ Holds(\A i \in 1..Ev.numrefs :
               LET s == Ev.refs[i]
                   P == PlacedOn(added, i - 1)
               IN IF P = {} THEN ~s[1]                                    \* no records: no statistics
                  ELSE /\ s[1] /\ s[2] = MappedCount(added, i - 1) /\ s[3] = UnmappedCount(added, i - 1)
-                      /\ V(s[4]) = added[FirstOn(added, i - 1)].cb /\ V(s[5]) = added[LastOn(added, i - 1)].ce
-         /\ IF added = <<>> THEN TRUE ELSE Ev.unplacedok /\ Ev.unplaced = UnplacedCount(added)
+                      /\ V(s[4]) = added[FirstOn(added, i - 1)].cb /\ V(s[5]) = added[LastOn(added, i - 1)].ce)
+         /\ Holds(IF added = <<>> THEN TRUE ELSE Ev.unplacedok /\ Ev.unplaced = UnplacedCount(added))
          /\ UNCHANGED <<added, kind, ms, d, ist>>
 RoundTrip == /\ IsEv("roundtrip") /\ Ev.res = "nil"
              /\ "err" \notin DOMAIN Ev
-             /\ IF "empty" \in DOMAIN Ev THEN NumRefs(added) = 0
-                ELSE Ev.bytesEqual /\ (("fields" \in DOMAIN Ev) => Ev.fields)
+             /\ Holds(IF "empty" \in DOMAIN Ev THEN NumRefs(added) = 0
+                      ELSE Ev.bytesEqual /\ (("fields" \in DOMAIN Ev) => Ev.fields))
              /\ UNCHANGED <<added, kind, ms, d, ist>>
 \* iterating the returned chunks over the real BAM reaches every overlapping record (record k was added k-th)
 Reach == /\ IsEv("reach") /\ Ev.res = "nil"
-         /\ \A i \in DOMAIN added : Overlaps(added[i], Ev.ref, Ev.beg, Ev.end) => \E j \in DOMAIN Ev.got : Ev.got[j] = i
+         /\ Holds(\A i \in DOMAIN added : Overlaps(added[i], Ev.ref, Ev.beg, Ev.end) => \E j \in DOMAIN Ev.got : Ev.got[j] = i)
          /\ UNCHANGED <<added, kind, ms, d, ist>>
 Merge == IsEv("merge") /\ Ev.res = "nil" /\ UNCHANGED <<added, kind, ms, d, ist>>
 Regular == Reset \/ Add \/ Chunks \/ Stats \/ RoundTrip \/ Merge \/ Reach
